@@ -1,6 +1,7 @@
 import LdkModel.Model.TlvFrame
 import LdkModel.Proofs.TlvFrame
 import LdkModel.Generated.TlvSchemas
+import LdkModel.Generated.TlvFieldPairs
 /-!
   C12 — persisted objects survive serialization unchanged: the FRAMING theorems.
 
@@ -194,6 +195,180 @@ theorem written_types_known_to_reader :
     (∀ p ∈ resolvedPairs, ∀ t ∈ unknownToReader p.1 p.2, t % 2 = 1) ∧
     (resolvedPairs.filterMap fun p => if unknownToReader p.1 p.2 == [] then none else some (p.1.name, unknownToReader p.1 p.2))
       = [("Event.write.w2", [3, 9])] := by decide
+
+/-! ## writers and readers agree FIELD BY FIELD
+
+  `tlvFieldRows` (Generated/TlvFieldPairs.lean, re-extracted from the Rust text on every check): for every resolved
+  hand-written (write block, read block) pair and every TLV type present on both sides, the struct field the writer
+  takes the value from (`htlc.mpp_part.sender_intended_value` -> `.field mpp_part.sender_intended_value`) and the struct
+  field the reader initialises from the record of that type (the variable bound by `read_tlv_fields!`, followed through
+  `let`s into the constructor literal).  A writer that puts ANOTHER field under a type number than the one its reader
+  restores from it (copy/paste of the line above, two fields swapped) changes a row and breaks the theorem. -/
+
+/-- The rows on which writer key and reader key differ, one by one, with the reason.  Categories:
+    LEGACY = type kept only for older readers / no longer written with content; COMPUTED = the writer serializes a value
+    computed from several fields (or the reader assembles one field from several types); RENAMED = same datum under
+    different names on the two sides (intermediate struct, renamed field); GETTER = writer goes through an accessor. -/
+def fieldExceptions : List FieldPin := [
+  -- LEGACY: `height_original` is gone; a constant 0 is written for pre-0.1 readers, the reader discards it
+  ("PackageTemplate.write.w0", 4, (.const, "0u32"), (.loc, "height_original")),
+  -- COMPUTED: PaymentClaimable writes `None` for a zero skimmed fee; reader `.unwrap_or(0)`
+  ("Event.write.w0", 10, (.loc, "skimmed_fee"), (.field, "counterparty_skimmed_fee_msat")),
+  -- LEGACY: PaymentPathFailed no longer carries a network update at type 1 (always `None`); the reader still accepts one
+  ("Event.write.w2", 1, (.const, "None::<NetworkUpdate>"), (.field, "failure.network_update")),
+  -- COMPUTED: HTLCIntercepted writes the scid inside `InterceptNextHop::FakeScid`
+  ("Event.write.w4", 2, (.loc, "intercept_scid"), (.field, "requested_next_hop_scid")),
+  -- LEGACY: PaymentForwarded writes the first prev/next HTLC locator's parts for readers that predate `prev_htlcs`/`next_htlcs`
+  ("Event.write.w5", 1, (.loc, "legacy_prev.channel_id"), (.loc, "prev_channel_id")),
+  ("Event.write.w5", 3, (.loc, "legacy_next.channel_id"), (.loc, "next_channel_id")),
+  ("Event.write.w5", 9, (.loc, "legacy_prev.user_channel_id"), (.loc, "prev_user_channel_id")),
+  ("Event.write.w5", 11, (.loc, "legacy_next.user_channel_id"), (.loc, "next_user_channel_id")),
+  ("Event.write.w5", 13, (.loc, "legacy_prev.node_id"), (.loc, "prev_node_id")),
+  ("Event.write.w5", 15, (.loc, "legacy_next.node_id"), (.loc, "next_node_id")),
+  -- LEGACY: HTLCHandlingFailed writes the first of `prev_channel_ids` for readers that predate the list
+  ("Event.write.w13", 0, (.field, "prev_channel_ids.first"), (.loc, "prev_channel_id")),
+  -- LEGACY: OnionMessageIntercepted: peer id written from `next_hop` when it is a node id
+  ("Event.write.w17", 0, (.loc, "legacy_peer_node_id"), (.field, "next_hop")),
+  -- COMPUTED: channel type written only when it is not the legacy default; the reader overrides `funding.channel_parameters`
+  ("FundedChannel.write.w0", 2, (.loc, "chan_type"), (.loc, "channel_type")),
+  -- COMPUTED: written only when different from the legacy default derived from the channel value
+  ("FundedChannel.write.w0", 4, (.loc, "serialized_holder_selected_reserve"), (.field, "funding.holder_selected_channel_reserve_satoshis")),
+  ("FundedChannel.write.w0", 6, (.loc, "serialized_holder_htlc_max_in_flight"), (.field, "context.holder_max_htlc_value_in_flight_msat")),
+  -- COMPUTED: the reader rebuilds `HolderCommitmentPoint` from the separately written points (types 45/47/63/71/73)
+  ("FundedChannel.write.w0", 45, (.field, "holder_commitment_point.next_point"), (.field, "holder_commitment_point")),
+  ("FundedChannel.write.w0", 47, (.field, "holder_commitment_point.pending_next_point"), (.field, "holder_commitment_point")),
+  -- RENAMED: per-holding-cell-HTLC accountable flags, zipped back into the holding cell by the reader
+  ("FundedChannel.write.w0", 77, (.loc, "holding_cell_accountable_flags"), (.loc, "holding_cell_accountable")),
+  -- LEGACY: the first negotiated candidate's funding is written at type 3 for readers that predate type 11
+  ("PendingFundingWriteable.write.w0", 3, (.field, "negotiated_candidates.funding"), (.field, "negotiated_candidates")),
+  -- RENAMED: the reader fills the flat intermediate `ChannelManagerData`, the writer reads the live manager
+  ("ChannelManager.write.w0", 3, (.field, "pending_outbound_payments.pending_outbound_payments"), (.field, "pending_outbound_payments")),
+  ("ChannelManager.write.w0", 4, (.field, "claimable_payments.pending_claiming_payments"), (.field, "pending_claiming_payments")),
+  ("ChannelManager.write.w0", 5, (.field, "our_network_pubkey"), (.field, "received_network_pubkey")),
+  -- COMPUTED: pending events (with completion actions) are written at type 8 only when some action is present
+  ("ChannelManager.write.w0", 8, (.expr, "if events_not_backwards_compatible { Some(&pendi"), (.field, "pending_events_read")),
+  -- COMPUTED: purposes / onion fields of the claimable payments, collected while the HTLC lists are written, re-zipped by the reader
+  ("ChannelManager.write.w0", 9, (.loc, "htlc_purposes"), (.loc, "claimable_htlc_purposes")),
+  ("ChannelManager.write.w0", 13, (.loc, "htlc_onion_fields"), (.loc, "amountless_claimable_htlc_onion_fields")),
+  -- GETTER: the offer cache lives in `flow`
+  ("ChannelManager.write.w0", 21, (.field, "flow.writeable_async_receive_offer_cache"), (.field, "async_receive_offer_cache")),
+  -- RENAMED / LEGACY: FailMalformedHTLC shares the reader with FailHTLC; an empty error packet marks the malformed variant
+  ("HTLCForwardInfo.write.w1", 1, (.field, "failure_code"), (.loc, "malformed_htlc_failure_code")),
+  ("HTLCForwardInfo.write.w1", 2, (.const, "Vec::<u8>::new()"), (.field, "err_packet.data")),
+  -- LEGACY: payment params are no longer stored in the HTLC source (always `None`)
+  ("HTLCSource.write.w0", 5, (.const, "None::<PaymentParameters>"), (.loc, "payment_params")),
+  -- COMPUTED: `ErroneousField { tlv_fieldnum, suggested_value }` is rebuilt from types 1 and 3
+  ("InvoiceError.write.w0", 1, (.field, "erroneous_field.tlv_fieldnum"), (.field, "erroneous_field")),
+  -- GETTER
+  ("NetworkGraph.write.w0", 1, (.field, "get_last_rapid_gossip_sync_timestamp"), (.field, "last_rapid_gossip_sync_timestamp")),
+  -- COMPUTED: `payee` is an enum; clear / blinded hints are written under different types and merged back
+  ("PaymentParameters.write.w0", 4, (.loc, "clear_hints"), (.field, "payee.route_hints")),
+  ("PaymentParameters.write.w0", 8, (.loc, "blinded_hints"), (.field, "payee.route_hints")),
+  -- COMPUTED: the final CLTV delta is written next to the payment params and handed to their `ReadableArgs`
+  ("RouteParameters.write.w0", 4, (.field, "payment_params.payee.final_cltv_expiry_delta"), (.loc, "final_cltv_delta")),
+  -- newtype: `ChannelLiquidities(map)`, tuple constructor
+  ("ChannelLiquidities.write.w0", 0, (.field, ""), (.loc, "channel_liquidities")),
+  -- GETTER: the two history trackers of `liquidity_history` are written under types 5 and 7
+  ("ChannelLiquidity.write.w0", 5, (.field, "liquidity_history.writeable_min_offset_history"), (.field, "liquidity_history")),
+  ("ChannelLiquidity.write.w0", 7, (.field, "liquidity_history.writeable_max_offset_history"), (.field, "liquidity_history")),
+  -- LEGACY: the fixed-limit form of `max_dust_htlc_exposure` for readers that predate the enum (type 3)
+  ("ChannelConfig.write.w0", 6, (.loc, "max_dust_htlc_exposure_msat_fixed_limit"), (.field, "max_dust_htlc_exposure")),
+  -- COMPUTED: preimages with claim info are merged into `payment_preimages`; their presence also sets the flag
+  ("write_chanmon_internal.w0", 25, (.field, "payment_preimages"), (.field, "written_by_0_1_or_later")),
+  -- COMPUTED: the reader assigns `best_block.previous_blocks` after construction
+  ("write_chanmon_internal.w0", 39, (.field, "best_block.previous_blocks"), (.loc, "best_block_previous_blocks")),
+  -- the total MPP amount is not part of `ClaimableHTLC`: passed in by the caller, returned next to the HTLC
+  ("write_claimable_htlc.w0", 1, (.loc, "total_mpp_value_msat"), (.loc, "total_msat")),
+  -- GETTER / RENAMED: legacy `HolderSignedTx.to_self_value_sat` is `to_broadcaster_value_sat()` of the commitment
+  ("write_legacy_holder_commitment_data.w0", 1, (.field, "to_broadcaster_value_sat"), (.field, "to_self_value_sat"))]
+
+/-- For every hand-written writer/reader pair and every TLV type present on both sides, the writer takes the value
+    from the struct field the reader restores from it — or the row is one of the pinned exceptions above.
+    Breaks when a writer entry is changed to another field (a duplicated / swapped line) or a reader's constructor
+    stops using the variable of that type. -/
+theorem writer_reader_fields_agree : ∀ r ∈ tlvFieldRows, FieldRow.agrees fieldExceptions r = true := by decide +kernel
+
+/-- … and the exception list is exact: precisely the differing rows of the current source, in order (nothing stale,
+    nothing covered by accident) -/
+theorem field_exceptions_exact : fieldMismatches tlvFieldRows = fieldExceptions := by decide +kernel
+
+/-- the table is not degenerate: hundreds of rows, over three quarters of them compared as struct field paths on
+    both sides, every row belongs to a resolved pair, and the `ClaimableHTLC` rows are among them -/
+theorem field_rows_cover :
+    tlvFieldRows.length > 350 ∧
+    4 * (tlvFieldRows.filter FieldRow.bothFields).length > 3 * tlvFieldRows.length ∧
+    (tlvFieldRows.all fun r => match tlvPairs[r.pairIdx]? with | some p => p.1 == r.wblock && p.2.2.1 == r.rblock | none => false) = true ∧
+    (tlvFieldRows.any fun r => r.wblock == "write_claimable_htlc.w0" && r.typ == 3 && r.wkey == (.field, "mpp_part.sender_intended_value") && r.rkey == r.wkey) = true := by
+  decide +kernel
+
+/-- (write block, field path) pairs that may legitimately appear under two TLV types — none today -/
+def writtenTwiceAllowed : List (String × String) := []
+
+/-- within one hand-written write block no struct field is written under two TLV types -/
+theorem no_field_written_twice : writtenTwice writtenTwiceAllowed tlvWriterFields = [] := by decide +kernel
+
+/-- What a write + read RESETS: the fields of a paired hand-written reader's constructor literal that are initialised
+    with a constant instead of anything read (block, field path, initialiser), one by one.  All of them are run-time-only
+    state (signer/closing negotiation progress, caches, locks, counters that the owner re-derives, the MPP timer).  A
+    reader that stops restoring a field (its initialiser replaced by `None` / `false` / `Default::default()`), or a new
+    field that is forgotten in the writer and defaulted in the reader — the shape of KF-C12-2, where
+    `LegacyChannelConfig::read` had `accept_underpaying_htlcs: false` — adds a row here and breaks the theorem. -/
+def readerResetFields : List (String × String × String) := [
+  -- FundedChannel: quiescence / splice hand-over, cached fee predictions and previous balances (recomputed), pending
+  -- config update timer, handshake override, async-signer flags, closing_signed negotiation progress (restarts after
+  -- reconnect), lnd workaround, reestablish bookkeeping
+  ("FundedChannel.read.r0", "quiescent_action", "None"),
+  ("FundedChannel.read.r0", "funding.holder_prev_commitment_tx_balance", "Mutex::new((0, 0))"),
+  ("FundedChannel.read.r0", "funding.counterparty_prev_commitment_tx_balance", "Mutex::new((0, 0))"),
+  ("FundedChannel.read.r0", "funding.next_local_fee", "Mutex::new(PredictedNextFee::default())"),
+  ("FundedChannel.read.r0", "funding.next_remote_fee", "Mutex::new(PredictedNextFee::default())"),
+  ("FundedChannel.read.r0", "context.prev_config", "None"),
+  ("FundedChannel.read.r0", "context.inbound_handshake_limits_override", "None"),
+  ("FundedChannel.read.r0", "context.signer_pending_revoke_and_ack", "false"),
+  ("FundedChannel.read.r0", "context.signer_pending_commitment_update", "false"),
+  ("FundedChannel.read.r0", "context.signer_pending_funding", "false"),
+  ("FundedChannel.read.r0", "context.signer_pending_closing", "false"),
+  ("FundedChannel.read.r0", "context.signer_pending_channel_ready", "false"),
+  ("FundedChannel.read.r0", "context.signer_pending_stale_state_verification", "None"),
+  ("FundedChannel.read.r0", "context.last_sent_closing_fee", "None"),
+  ("FundedChannel.read.r0", "context.last_received_closing_sig", "None"),
+  ("FundedChannel.read.r0", "context.pending_counterparty_closing_signed", "None"),
+  ("FundedChannel.read.r0", "context.expecting_peer_commitment_signed", "false"),
+  ("FundedChannel.read.r0", "context.closing_fee_limits", "None"),
+  ("FundedChannel.read.r0", "context.closing_signed_in_flight", "false"),
+  ("FundedChannel.read.r0", "context.workaround_lnd_bug_4006", "None"),
+  ("FundedChannel.read.r0", "context.funding_locked_txid_sent_in_reestablish", "None"),
+  ("FundedChannel.read.r0", "context.sent_message_awaiting_response", "None"),
+  -- PendingFunding: candidates read from the legacy type 3 carry no contribution
+  ("PendingFunding.read.r0", "negotiated_candidates.contribution", "None"),
+  -- AsyncReceiveOfferCache: request attempt counter restarts
+  ("AsyncReceiveOfferCache.read.r0", "offer_paths_request_attempts", "0"),
+  -- NetworkGraph: node counters are re-assigned by the graph reader; verification context, removal trackers and
+  -- pending UTXO checks are run-time only
+  ("ChannelInfo.read.r0", "node_one_counter", "u32::MAX"),
+  ("ChannelInfo.read.r0", "node_two_counter", "u32::MAX"),
+  ("NetworkGraph.read.r0", "secp_ctx", "Secp256k1::verification_only()"),
+  ("NetworkGraph.read.r0", "removed_node_counters", "Mutex::new(Vec::new())"),
+  ("NetworkGraph.read.r0", "removed_nodes", "Mutex::new(new_hash_map())"),
+  ("NetworkGraph.read.r0", "removed_channels", "Mutex::new(new_hash_map())"),
+  ("NetworkGraph.read.r0", "pending_checks", "utxo::PendingChecks::new()"),
+  ("NodeInfo.read.r0", "node_counter", "u32::MAX"),
+  -- ChannelMonitor: event-processing re-entrancy flag; `failed_back_htlc_ids` is documented in-memory only (the harness
+  -- compares monitors modulo it, hook verif_eq_modulo_unserialized)
+  ("ChannelMonitor.read.r0", "is_processing_pending_events", "false"),
+  ("ChannelMonitor.read.r0", "failed_back_htlc_ids", "new_hash_set()"),
+  -- ClaimableHTLC: the MPP timeout timer restarts (the harness masks `timer_ticks` in the deep dump)
+  ("ClaimableHTLC.read.r0", "mpp_part.timer_ticks", "0")]
+
+/-- the reset list is exact -/
+theorem reader_constant_fields_exact : tlvReaderConstFields = readerResetFields := by decide +kernel
+
+-- non-vacuity: a duplicated line (the C12-a slip) and a swap are both caught on a toy table
+example : FieldRow.agrees [] (0, "w", "r", 3, (.field, "mpp_part.value"), (.field, "mpp_part.sender_intended_value")) = false := by decide
+example : fieldMismatches [(0, "w", "r", 2, (.field, "a"), (.field, "b")), (0, "w", "r", 4, (.field, "b"), (.field, "a")), (0, "w", "r", 6, (.field, "c"), (.field, "c"))]
+    = [("w", 2, (.field, "a"), (.field, "b")), ("w", 4, (.field, "b"), (.field, "a"))] := by decide
+example : writtenTwice [] [("w", [(2, "mpp_part.value"), (3, "mpp_part.value"), (6, "mpp_part.cltv_expiry")])] = [("w", "mpp_part.value")] := by decide
+example : writtenTwice [("w", "mpp_part.value")] [("w", [(2, "mpp_part.value"), (3, "mpp_part.value")])] = [] := by decide
 
 /-! ## enum variant ids -/
 
